@@ -26,7 +26,11 @@ pub struct Series {
 
 fn step_strategy() -> BS<i128> {
     wunion(vec![
+        // "from 1 ns upward": steps of years to centuries as well (the number of items is then capped by the range)
+        (1, (40i128..200_000, 0i128..NS_D).prop_map(|(d, r)| d * NS_D + r).boxed()),
+        (1, (1i128..=6, small_delta(3)).prop_map(|(c, d)| c * NPC + d).boxed()),
         (3, log_mag(52).prop_map(|m| m.min(40 * NS_D)).boxed()),
+        (1, log_mag(68).boxed()),
         (3, (0usize..7, 1i128..=40).prop_map(|(u, k)| (k * UNIT_NS[u]).min(40 * NS_D)).boxed()),
         (2, (1i128..=3).boxed()),
     ])
@@ -44,8 +48,13 @@ fn series_strategy_with(max_n: u32, tiny_steps: bool) -> BS<Series> {
         (2, (0usize..9, -3i128..=3, 0i128..1_000_000).prop_map(|(s, k, back)| Ep { s, c: k * NPC - back }).boxed()),
     ]);
     let step = if tiny_steps { (1i128..=3).boxed() } else { step_strategy() };
+    // a quarter of the series are re-anchored so that item j lands exactly on a century boundary of the count
+    let start = (start, -2i128..=2, 0u32..40, prop::bool::weighted(0.25)).prop_map(|(s, k, j, land)| (s, k, j, land));
     (start, step, 0u32..=max_n, 0u8..4, any::<u64>(), any::<bool>(), prop_oneof![3 => Just(99usize), 2 => (0usize..9)])
-        .prop_map(|(start, step, n, rk, rr, inclusive, es)| {
+        .prop_map(|((start, k, j, land), step, n, rk, rr, inclusive, es)| {
+            let start = if land { Ep { s: start.s, c: k * NPC - j as i128 * step } } else { start };
+            // large steps: keep the series short so that it stays in range
+            let n = if step > 400 * NS_D { n % 8 } else { n };
             let r = match rk {
                 0 => 0,
                 1 => 1.min(step - 1),
@@ -115,6 +124,7 @@ fn series_oracle(c: &Series) -> Verdict {
                 ensure!(e.time_scale == SCALES[s1], "item {} has scale {:?}, want the start's {:?}", k, e.time_scale, SCALES[s1]);
                 let want = c.start.c + k * c.step;
                 ensure!(count(e.duration) == want, "item {} has count {}, want start + k*step = {}", k, count(e.duration), want);
+                ensure!(e.duration.to_parts() == mk(want).to_parts(), "item {} has parts {:?}, not the canonical form {:?} of its count", k, e.duration.to_parts(), mk(want).to_parts());
                 if let Some(p) = prev {
                     ensure!(count(e.duration) > p, "items not strictly increasing at {}", k);
                 }
